@@ -17,6 +17,8 @@ bytes of a `str`, or one byte per element (an index into the harness's element p
   cow intoowned <h> <fc>    → h<k> <hex> cap=<n>    (fc: real capacity of the result; used for fresh copies only)
   cow intostd <h> <fc>      → h<k> B|O <hex>
   cow drop <h> | dropt <h>  → ok          (dropt: dropped on another thread — same heap operations)
+  cow intoownedu <h> <fc>   → unwound | h<k> <hex> cap=<n>   (into_owned with a panicking element Clone armed)
+  cow cloneu <h>            → unwound | h<k> <hex> p=<1|0>   (clone with a panicking element Clone armed)
 
 Every answer ends with ` n=<live allocations | *> s=<strong counts of the arcs the caller still holds, ~ otherwise>`.
 A memory error of the model answers `error <name>` and poisons the rest of the case.
@@ -61,12 +63,15 @@ def parseOp : List String → Option Op
   | ["intostd", h, fc] => do pure (.intoStdCow (← h.toNat?) (← fc.toNat?))
   | ["drop", h] => do pure (.drop (← h.toNat?))
   | ["dropt", h] => do pure (.drop (← h.toNat?))
+  | ["intoownedu", h, fc] => do pure (.intoOwnedUnwind (← h.toNat?) (← fc.toNat?))
+  | ["cloneu", h] => do pure (.cloneUnwind (← h.toNat?))
   | _ => none
 
 def showAns (s' : St) (op : Op) : Ans → String
   | .handle h c =>
     match op with
     | .clone src => s!"h{h} {showContent c} p={if samePtr s' src h then 1 else 0}"
+    | .cloneUnwind src => s!"h{h} {showContent c} p={if samePtr s' src h then 1 else 0}"
     | _ => s!"h{h} {showContent c}"
   | .owned h c cap => s!"h{h} {showContent c} cap={cap}"
   | .std h b c => s!"h{h} {if b then "B" else "O"} {showContent c}"
@@ -74,6 +79,7 @@ def showAns (s' : St) (op : Op) : Ans → String
   | .bool b => if b then "true" else "false"
   | .arc a => s!"a{a}"
   | .unit => "ok"
+  | .unwound => "unwound"
 
 def handle (d : DSt) (args : List String) : Option (DSt × String) :=
   match args with
